@@ -72,7 +72,37 @@ class FakeFs:
         return None
 
     async def write(self, url, data):
-        self.written.append(url)
+        self.written.append((url, data))
+
+
+class PickleDill:
+    """stand-in for `dill` inside hailtop.batch.batch: what PythonJob._compile serialises must be readable by the check"""
+
+    @staticmethod
+    def dump(obj, f, recurse=False, **kw):
+        import pickle
+        pickle.dump(obj, f)
+
+    @staticmethod
+    def load(f):
+        import pickle
+        return pickle.load(f)
+
+
+def norm_arg(a):
+    """call arguments: ['r', ref] | ['l', [ref…]] | ['d', [[key, ref]…]] | ['v', int]; a bare ref (older cases) means ['r', ref]"""
+    return a if a[0] in ('r', 'l', 'd', 'v') else ['r', a]
+
+
+def arg_refs(a):
+    a = norm_arg(a)
+    if a[0] == 'r':
+        return [a[1]]
+    if a[0] == 'l':
+        return list(a[1])
+    if a[0] == 'd':
+        return [r for _, r in a[1]]
+    return []
 
 
 K_DIGIT = 'C18:reference-followed-by-digit'
@@ -132,6 +162,7 @@ class C18(Prop):
             def external_url(self, *a):
                 return 'http://batch.invalid/'
         backend.track = lambda it, **kw: it
+        batchmod.dill = PickleDill      # the real dill is not installed; only dump() of plain tuples / a module-level function is needed
         backend.get_deploy_config = lambda: DC()
 
         async def fake_copy_from_dict(files, **kw):
@@ -144,7 +175,7 @@ class C18(Prop):
     IN_PATHS = ['gs://in/data.txt', 'gs://in/x/f.txt', 'gs://in/y/f.txt', 'gs://in/dir/ref.fa', 'gs://in/dir/ref.fa.fai', 'gs://in/my file.txt',
                 "gs://in/it's.txt", 'gs://other/x/g.bed', 'gs://in/trailing/']
     ATTRS = ['ofile', 'out', 'x', 'tmp1', 'res_2']
-    TEMPLATES = ['{root}.bed', '{root}.bim', '{root}', 'fixed.txt', '{root}.v{root}']
+    TEMPLATES = ['{root}.bed', '{root}.bim', '{root}', '{root}.vcf.gz', '{root}.vcf.gz.tbi', 'fixed.txt', '{root}.v{root}']
 
     NAMES = [None, 'p', 'c', 'c', 'align', 'my job!', 'x-1', 'a/b c.d', 'x_y-z', 'p']
 
@@ -156,7 +187,7 @@ class C18(Prop):
             return long_name[:rng.choice([200, 243, 246])] + rng.choice(['', 'x', '/y'])
         return rng.choice(self.NAMES)                          # short, often equal, some with characters safe_str rewrites
 
-    def _foreign_ref(self, rng, j, jobs, handles, inputs=True):
+    def _foreign_ref(self, rng, j, jobs, handles, inputs=True, whole=0.3):
         """a reference job j makes to something it does not own: an earlier job's resource (file, whole declared group, or —
         most often when there is a group — a SINGLE member of it) or an input"""
         if inputs and handles and rng.random() < 0.25:
@@ -168,9 +199,9 @@ class C18(Prop):
         groups = sorted(a for a, k in jobs[p]['attrs'].items() if k != 'file' and a in jobs[p]['valid'])
         if groups and rng.random() < 0.6:
             a = rng.choice(groups)
-            if rng.random() < 0.7:
+            if rng.random() >= whole:
                 return ['b', p, a, rng.choice(jobs[p]['attrs'][a][1])]       # one member only
-            return ['a', p, a]
+            return ['a', p, a]                                               # the whole group
         pool = sorted(jobs[p]['valid']) if rng.random() < 0.95 else self.ATTRS
         if not pool:
             return None
@@ -213,12 +244,22 @@ class C18(Prop):
                 # a PythonJob whose call gets resources of earlier jobs / inputs as arguments
                 prog.append({'op': 'pyjob', 'name': name})
                 jobs.append(info)
-                args = []
-                for _ in range(rng.choice([1, 1, 2, 3])):
-                    ref = self._foreign_ref(rng, j, jobs, handles)
-                    if ref is not None:
-                        args.append(ref)
-                prog.append({'op': 'pycall', 'j': j, 'args': args})
+                for _ in range(rng.choice([1, 1, 1, 2])):
+                    args = []
+                    for _ in range(rng.choice([1, 1, 2, 3])):
+                        shape = rng.random()
+                        refs = [r for r in (self._foreign_ref(rng, j, jobs, handles, whole=0.6) for _ in range(rng.choice([1, 2, 3]))) if r]
+                        if shape < 0.1:
+                            args.append(['v', rng.randint(0, 99)])
+                        elif not refs:
+                            continue
+                        elif shape < 0.7:
+                            args.append(['r', refs[0]])
+                        elif shape < 0.85:
+                            args.append(['l', refs])
+                        else:
+                            args.append(['d', [[f'k{i}', r] for i, r in enumerate(refs)]])
+                    prog.append({'op': 'pycall', 'j': j, 'args': args})
                 continue
             prog.append({'op': 'job', 'name': name})
             jobs.append(info)
@@ -226,7 +267,7 @@ class C18(Prop):
                 gname = rng.choice(['out', 'tmp1', 'grp'])
                 idents = rng.sample(['bed', 'bim', 'fam', 'log'], rng.choice([1, 2, 3]))
                 # the user names the files of a group: distinct names (two identical names are the user's own collision)
-                temps = rng.sample(self.TEMPLATES, len(idents)) if rng.random() < 0.3 else rng.sample(self.TEMPLATES[:3], len(idents))
+                temps = rng.sample(self.TEMPLATES, len(idents)) if rng.random() < 0.3 else rng.sample(self.TEMPLATES[:5], len(idents))
                 prog.append({'op': 'rgroup', 'j': j, 'gname': gname, 'files': [[i, t] for i, t in zip(idents, temps)]})
                 info['attrs'][gname] = ('group', idents)
                 info['valid'].add(gname)
@@ -331,7 +372,17 @@ class C18(Prop):
             elif op == 'pyjob':
                 out.append(f"P {hx(s['name']) if s['name'] else '-'}")
             elif op == 'pycall':
-                out.append(f"Y {s['j']} " + ' '.join(self._ref_tok(r) for r in s['args']))
+                toks = []
+                for a in map(norm_arg, s['args']):
+                    if a[0] == 'r':
+                        toks.append('R' + self._ref_tok(a[1]))
+                    elif a[0] == 'l':
+                        toks.append('L' + ','.join(self._ref_tok(r) for r in a[1]))
+                    elif a[0] == 'd':
+                        toks.append('K' + ','.join(f'{hx(k)}={self._ref_tok(r)}' for k, r in a[1]))
+                    else:
+                        toks.append('V' + hx(repr(a[1])))
+                out.append(f"Y {s['j']} " + ' '.join(toks))
         return [' ; '.join(out)]
 
     # ------------------------------------------------------------------------------------------ real side
@@ -384,7 +435,8 @@ class C18(Prop):
         be.regions = ['r1']
         client = FakeClient()
         be._ServiceBackend__batch_client = client
-        be._ServiceBackend__fs = FakeFs()
+        fakefs = FakeFs()
+        be._ServiceBackend__fs = fakefs
         be._closed = True
         be.close = lambda: None    # Backend.__del__ -> close() would run a nested event loop during garbage collection
 
@@ -394,6 +446,7 @@ class C18(Prop):
         env = {'handles': [], 'jobs': []}
         mentions = []       # (job index, command index, pieces with resolved resource objects)
         out_stmts = []
+        pycalls = []        # (job index, call index, the argument objects as passed)
         asyncio.set_event_loop(self.loop)
         try:
             with warnings.catch_warnings():
@@ -412,8 +465,21 @@ class C18(Prop):
                             env['jobs'].append(b.new_python_job(name=s['name']))
                         elif op == 'pycall':
                             j = env['jobs'][s['j']]
-                            args = [self._resolve(env, r) for r in s['args']]
-                            mentions.append((s['j'], None, [('r', a) for a in args]))
+                            args, flat = [], []
+                            for a in map(norm_arg, s['args']):
+                                if a[0] == 'r':
+                                    args.append(self._resolve(env, a[1]))
+                                    flat.append(args[-1])
+                                elif a[0] == 'l':
+                                    args.append([self._resolve(env, r) for r in a[1]])
+                                    flat += args[-1]
+                                elif a[0] == 'd':
+                                    args.append({k: self._resolve(env, r) for k, r in a[1]})
+                                    flat += list(args[-1].values())
+                                else:
+                                    args.append(a[1])
+                            mentions.append((s['j'], None, [('r', a) for a in flat]))
+                            pycalls.append((s['j'], len(j._function_calls), args))
                             j.call(verif_count_lines, *args)
                         elif op == 'rgroup':
                             env['jobs'][s['j']].declare_resource_group(**{s['gname']: {i: t for i, t in s['files']}})
@@ -481,7 +547,16 @@ class C18(Prop):
             jobs.append({'cmds': list(j.__dict__.get('_command', [])), 'cmd': cmd, 'in': [x for x in ins if x not in code_in], 'code_in': code_in,
                          'out': [tuple(x) for x in (kw.get('output_files') or [])], 'par': parents, 'sym': syms,
                          'python': '_command' not in j.__dict__})      # never getattr(): Job.__getattr__ creates resources
-        return {'status': 'ok', 'jobs': jobs, 'xin': xin, 'canon': canon, 'env': env, 'mentions': mentions, 'outs': out_stmts, 'batch': b,
+        # what each PythonJob's function will be handed: the pickled (args, kwargs) the job loads from <job dir>/args/code<i>.p
+        import pickle
+        for idx, j in enumerate(env['jobs']):
+            handed = {}
+            for url, data in fakefs.written:
+                pre = f'{remote}/{j._dirname}/args/code'
+                if url.startswith(pre) and url.endswith('.p'):
+                    handed[int(url[len(pre):-2])] = pickle.loads(data)[0]
+            jobs[idx]['handed'] = [handed[i] for i in sorted(handed)]
+        return {'status': 'ok', 'pycalls': pycalls, 'jobs': jobs, 'xin': xin, 'canon': canon, 'env': env, 'mentions': mentions, 'outs': out_stmts, 'batch': b,
                 'local': local, 'remote': remote}
 
     def impl(self, c):
@@ -496,8 +571,30 @@ class C18(Prop):
         for i, j in enumerate(r['jobs']):
             cmds = ','.join(hx(x) for x in j['cmds']) or '-'
             par = ','.join(sorted(str(p) for p in set(j['par']))) or '-'
-            parts.append(f"job{i} cmds={cmds} in={pairs(j['in'])} out={pairs(j['out'])} par={par} sym={pairs(j['sym'])}")
+            parts.append(f"job{i} cmds={cmds} in={pairs(j['in'])} out={pairs(j['out'])} par={par} sym={pairs(j['sym'])} "
+                         f"args={self._fmt_handed(j['handed'], canon)}")
         return [' | '.join(parts)]
+
+    @staticmethod
+    def _fmt_handed(calls, canon):
+        def one(p):
+            if p[0] == 'path':
+                return 'p:' + canon(p[1])
+            if p[0] == 'dict_path':
+                return 'd:{' + '&'.join(f'{k}={canon(v)}' for k, v in p[1].items()) + '}'
+            return f'?{p[0]}'
+
+        def arg(p):
+            if p[0] in ('path', 'dict_path'):
+                return one(p)
+            if p[0] == 'list':
+                return 'l:[' + '|'.join(one(e) for e in p[1]) + ']'
+            if p[0] == 'dict':
+                return 'm:{' + '|'.join(f'{k}={one(v)}' for k, v in p[1].items()) + '}'
+            if p[0] == 'value':
+                return 'v:' + repr(p[1])
+            return f'?{p[0]}'
+        return ';'.join(','.join(arg(a) for a in args) for args in calls) if calls else '-'
 
     # ------------------------------------------------------------------------------------------ the property, executably
     def _check(self, c):
@@ -547,6 +644,47 @@ class C18(Prop):
                             return ('plan', f'job {ji} downloads {f} from {a} but job {pi} does not upload it there (uploads: {jobs[pi]["out"]})')
                     if pi not in jobs[ji]['par']:
                         return ('plan', f'job {ji} consumes {f} of job {pi} but is not submitted as its child (parents {jobs[ji]["par"]})')
+        # every resource handed to a PythonJob's function is handed as the local path the job downloads that resource to
+        for (ji, ci, args) in r['pycalls']:
+            handed = jobs[ji]['handed']
+            if ci >= len(handed) or len(handed[ci]) != len(args):
+                return ('pyargs', f'job {ji} call {ci}: the pickled arguments do not match the call ({handed[ci:ci + 1]})')
+            local_dsts = {b for _, b in jobs[ji]['in']}
+
+            def check_one(a, h, where):
+                if isinstance(a, resource.ResourceGroup):
+                    if h[0] != 'dict_path' or list(h[1]) != list(a._resources):
+                        return f'{where}: a resource group must be handed as a dict over its identifiers, got {h}'
+                    for ident, f in a._resources.items():
+                        want = f._get_path(local)
+                        if h[1][ident] != want:
+                            return f'{where}: member {ident!r} is handed as {h[1][ident]} but the job has it at {want}'
+                        if f.source() is not env['jobs'][ji] and want not in local_dsts:
+                            return f'{where}: member {ident!r} is handed as {want} but nothing is downloaded there'
+                    return None
+                want = a._get_path(local)
+                if h != ('path', want):
+                    return f'{where}: the file is handed as {h} but the job has it at {want}'
+                if a.source() is not env['jobs'][ji] and want not in local_dsts:
+                    return f'{where}: handed as {want} but nothing is downloaded there'
+                return None
+            for k, (a, h) in enumerate(zip(args, handed[ci])):
+                where = f'job {ji} call {ci} argument {k}'
+                if isinstance(a, list):
+                    if h[0] != 'list' or len(h[1]) != len(a):
+                        return ('pyargs', f'{where}: list handed as {h}')
+                    msgs = [check_one(x, y, where) for x, y in zip(a, h[1])]
+                elif isinstance(a, dict):
+                    if h[0] != 'dict' or list(h[1]) != list(a):
+                        return ('pyargs', f'{where}: dict handed as {h}')
+                    msgs = [check_one(a[key], h[1][key], where) for key in a]
+                elif isinstance(a, resource.Resource):
+                    msgs = [check_one(a, h, where)]
+                else:
+                    msgs = [None if h == ('value', a) else f'{where}: value {a!r} handed as {h}']
+                for m in msgs:
+                    if m:
+                        return ('pyargs', m)
         # the clause on the submitted specs themselves: whatever a job downloads from the batch's internal (remote tmpdir)
         # location must be uploaded to exactly that location by a job it is submitted as a child of
         for ci, cj in enumerate(jobs):
@@ -606,7 +744,7 @@ class C18(Prop):
                 jobs[s['j']]['valid'].add(s['gname'])
                 jobs[s['j']]['attrs'].add(s['gname'])
             elif op in ('cmd', 'pycall'):
-                for p in (s['pieces'] if op == 'cmd' else s['args']):
+                for p in (s['pieces'] if op == 'cmd' else [r for a in s['args'] for r in arg_refs(a)]):
                     if p[0] == 'm' and p[2] not in (handles[p[1]] or []):
                         return True
                     if p[0] in ('a', 'b'):
@@ -662,7 +800,7 @@ class C18(Prop):
             elif op in ('cmd', 'pycall'):
                 if s['j'] >= len(jobs) or jobs[s['j']]['python'] != (op == 'pycall'):
                     return True
-                for p in (s['pieces'] if op == 'cmd' else s['args']):
+                for p in (s['pieces'] if op == 'cmd' else [r for a in s['args'] for r in arg_refs(a)]):
                     if p[0] != 't' and bad_ref(p):
                         return True
             elif op == 'ext':
@@ -690,7 +828,7 @@ class C18(Prop):
         groups_whole, member_only = set(), set()
         for s in prog:
             if s['op'] in ('cmd', 'pycall'):
-                for p in (s['pieces'] if s['op'] == 'cmd' else s['args']):
+                for p in (s['pieces'] if s['op'] == 'cmd' else [r for a in s['args'] for r in arg_refs(a)]):
                     if p[0] in ('a', 'b') and p[1] != s['j']:
                         cross += 1
                         (member_only if p[0] == 'b' else groups_whole).add((p[1], p[2]))
@@ -698,6 +836,12 @@ class C18(Prop):
                 tags.append('has-' + s['op'])
         if member_only - groups_whole:
             tags.append('has-member-only-reference')
+        for s in prog:
+            if s['op'] == 'pycall':
+                for a in map(norm_arg, s['args']):
+                    tags.append({'r': 'pyarg=resource', 'l': 'pyarg=list', 'd': 'pyarg=dict', 'v': 'pyarg=value'}[a[0]])
+                    if any(r[0] in ('a', 'h') and self._is_group_ref(prog, r) for r in arg_refs(a)):
+                        tags.append('pyarg=whole-group')
         names = [s['name'] for s in prog if s['op'] in ('job', 'pyjob')]
         if any(n and len(n) >= 240 for n in names):
             tags.append('has-long-job-name')
@@ -750,13 +894,21 @@ class C18(Prop):
                 continue
             first = next((k for k, t in enumerate(prog) if t['op'] in ('cmd', 'out', 'pycall') and any(
                 p[0] in ('a', 'b') and p[1] == s['j'] and p[2] == s['name']
-                for p in (t['pieces'] if t['op'] == 'cmd' else t['args'] if t['op'] == 'pycall' else [t['ref']]))), None)
+                for p in (t['pieces'] if t['op'] == 'cmd' else [r for a in t['args'] for r in arg_refs(a)] if t['op'] == 'pycall'
+                          else [t['ref']]))), None)
             pos = prog.index(s)
             if first is not None and first < pos:
                 prog.remove(s)
                 prog.insert(first, s)
                 hit = True
         return {'prog': prog} if hit else None
+
+    @staticmethod
+    def _is_group_ref(prog, r):
+        if r[0] == 'h':
+            hs = [s for s in prog if s['op'] in ('input', 'igroup')]
+            return r[1] < len(hs) and hs[r[1]]['op'] == 'igroup'
+        return any(s['op'] == 'rgroup' and s['j'] == r[1] and s['gname'] == r[2] for s in prog)
 
     def finding_key(self, c, msg):
         if self._check(c) is None:
